@@ -443,7 +443,10 @@ def decode_src(case, leaf_y, length):
     flat = leaf_y[1]
     out = []
     for p in range(length):
-        y = flat[p * stride] if bs[:d] == [] or True else None
+        if p * stride >= len(flat):
+            out.append("out-of-range")          # a result of an unexpected shape is an observation, never a crash
+            continue
+        y = flat[p * stride]
         if y == -1:
             out.append(None)
             continue
@@ -840,6 +843,7 @@ def check_map_full(R):
 # =================================================================== 4. thread pools under a deterministic executor
 from tensordict import is_tensor_collection, LazyStackedTensorDict  # noqa: E402
 from . import c12_thr as T  # noqa: E402
+import tensordict._td as TT_mod  # noqa: E402
 
 BS = [3]
 
@@ -1251,6 +1255,166 @@ def check_apply(R):
 
 
 
+# ------------------------------------------------------------------- the METADATA of the result of apply (Model/C12_Meta.v)
+def meta_of(x):
+    """nested tensordicts only, in key order: [bs, names, device, locked, kids]"""
+    if x is None:
+        return None
+    nm = list(x.names) if x._has_names() else None
+    if nm is not None and all(q is None for q in nm):
+        nm = None
+    return [list(x.batch_size), nm, None if x.device is None else str(x.device), bool(x.is_locked),
+            [[k, meta_of(v)] for k, v in x.items() if is_tensor_collection(v)]]
+
+
+DEVS = {"cpu": 0}
+
+
+def meta_sx(m):
+    bs, nm, dv, lk, kids = m
+    return [Sym("mnode"), bs, some(nm), some(None if dv is None else DEVS[dv]), lk, [[Sym(k), meta_sx(v)] for k, v in kids]]
+
+
+def meta_from_model(m):
+    if m[0] != "ok":
+        return ["raise"]
+
+    def conv(t):
+        _, bs, nm, dv, lk, kids = t
+        return [bs, None if nm == "none" else nm[1], None if dv == "none" else {v: k for k, v in DEVS.items()}[dv[1]], lk == "t",
+                [[k, conv(v)] for k, v in kids]]
+    return ["ok", conv(m[1])]
+
+
+def gen_meta_case(rng):
+    nleaves = rng.choice([1, 2, 3, 3, 4, 5])
+    spec = gen_tree(rng, nleaves, depth=3)
+    case = {"op": "applymeta", "spec": spec, "self_names": rng.random() < 0.35, "self_dev": rng.choice([None, None, "cpu"]),
+            "bs": rng.choice([None, None, None, [3], [3, 2], []]), "dev": rng.choice(["nodefault", "nodefault", "cpu"]),
+            "names": "nodefault", "inplace": rng.random() < 0.15, "checked": rng.random() < 0.5, "out": None,
+            "threads": rng.choice([1, 2, 4]), "bs_size": rng.random() < 0.7, "dev_obj": rng.random() < 0.7}
+    rank = 1 if case["bs"] is None else len(case["bs"])
+    r = rng.random()
+    if r < 0.3 and rank > 0:
+        case["names"] = ["t", "u"][:rank]
+    elif r < 0.4:
+        case["names"] = None
+    if not case["inplace"] and rng.random() < 0.35:
+        paths = [p_ for p_ in all_paths(spec) if isinstance(dict_at(spec, p_), list)]
+        case["out"] = {"dev": rng.choice([None, None, "cpu"]), "names": rng.random() < 0.3, "locked": rng.random() < 0.06,
+                       "drop": [p_ for p_ in paths if rng.random() < 0.25], "bs2": False}
+        if not case["out"]["names"] and case["checked"] and rng.random() < 0.15:
+            # (unchecked, _validate_value would also re-batch the nested results and name them partially: outside the model)
+            case["out"]["bs2"] = True
+    return case
+
+
+def dict_at(spec, path):
+    node = spec
+    for k in path:
+        node = dict((kk, vv) for kk, vv in node)[k]
+    return node
+
+
+def run_meta(case, sched):
+    spec = case["spec"]
+    td = build_tree(spec)
+    if case["self_dev"]:
+        td = td.to(case["self_dev"])
+    if case["self_names"]:
+        td.names = ["a"]
+    out = None
+    if case["out"] is not None:
+        oc = case["out"]
+        out = build_tree(spec, off=-7, drop=oc["drop"])
+        if oc["bs2"]:
+            out.batch_size = [3, 2]
+        if oc["dev"]:
+            out = out.to(oc["dev"])
+        if oc["names"]:
+            out.names = ["o", "p"][:out.batch_dims]
+        if oc["locked"]:
+            out.lock_()
+    pre = {"self": meta_of(td), "out": meta_of(out)}
+    kw = {"inplace": case["inplace"], "out": out, "checked": case["checked"], "filter_empty": False}
+    if case["bs"] is not None:
+        kw["batch_size"] = torch.Size(case["bs"]) if case.get("bs_size") else list(case["bs"])
+    if case["dev"] != "nodefault":
+        kw["device"] = torch.device(case["dev"]) if case.get("dev_obj") else case["dev"]
+    if case["names"] != "nodefault":
+        kw["names"] = case["names"]
+    fn = lambda x: x + 1  # noqa: E731
+    o = {"pre": pre}
+    try:
+        if sched is None:
+            r = td._fast_apply(fn, **kw)
+        else:
+            with T.scheduled(*sched):
+                r = td._fast_apply(fn, num_threads=case["threads"], **kw)
+        o["status"] = "ok"
+        o["ret"] = "self" if r is td else "out" if (out is not None and r is out) else "none" if r is None else "new"
+        o["meta"] = meta_of(r)
+        o["values"] = obs_tree(r)
+    except Exception as e:  # noqa: BLE001
+        o["status"] = "raise"
+        o["exc"] = type(e).__name__
+    return o
+
+
+def meta_model_line(case, form, pre):
+    nm = case["names"]
+    return sx([Sym("apply-meta"), Sym(form), meta_sx(pre["self"]), some(meta_sx(pre["out"])) if pre["out"] is not None else None,
+               some(case["bs"]), bool(case.get("bs_size")), None if case["dev"] == "nodefault" else some(some(DEVS[case["dev"]])), bool(case.get("dev_obj")),
+               None if nm == "nodefault" else [Sym("some"), Sym("none") if nm is None else [Sym("some"), nm]], case["inplace"], case["checked"]])
+
+
+def check_apply_meta(R):
+    """names= / batch_size= / device= overrides, out= with its own metadata (other device, locked, another batch size, entries missing),
+    inplace, checked on / off: the metadata of every nested tensordict of the result, single-threaded vs thread pool under several
+    schedules, and both against Model/C12_Meta.v"""
+    rng = R.rng
+    ncases = int(os.environ.get("C12_NMETA", 500 if R.quick else 8000))
+    lines, wants = [], []
+    for ci in range(ncases):
+        case = gen_meta_case(rng)
+        st = run_meta(case, None)
+        ntasks = len(tree_leaves(case["spec"]))
+        scheds = [(list(range(ntasks)), []), (list(range(ntasks - 1, -1, -1)), []), (rng.sample(range(ntasks), ntasks), []), ([], list(range(ntasks + 2)))]
+        R.case(case_key(case), nontrivial=has_node(case["spec"]), sample=case if ci % 173 == 0 else None)
+        for k in ("inplace", "checked", "self_names"):
+            if case[k]:
+                R.count("applymeta:" + k)
+        R.count("applymeta:batch_size=" + str(case["bs"]))
+        R.count("applymeta:device=" + case["dev"])
+        R.count("applymeta:names=" + ("nodefault" if case["names"] == "nodefault" else "None" if case["names"] is None else "given"))
+        R.count("applymeta:out=" + ("none" if case["out"] is None else "given" + ("+locked" if case["out"]["locked"] else "") +
+                                    ("+entries-missing" if case["out"]["drop"] else "") + ("+other-batch-size" if case["out"]["bs2"] else "")))
+        R.count("applymeta:status=" + st["status"])
+        lines.append(meta_model_line(case, "st", st["pre"]))
+        wants.append((case, None, ["raise"] if st["status"] == "raise" else ["ok", st["meta"]]))
+        sig = {"call": "_multithread_apply_nest", "stream": "applymeta", "names": case["names"] != "nodefault", "batch_size": case["bs"] is not None,
+               "device": case["dev"] != "nodefault", "out": case["out"] is not None}
+        for si, sched in enumerate(scheds):
+            mt = run_meta(case, sched)
+            R.traces += 1
+            if si == 0:
+                lines.append(meta_model_line(case, "mt", mt["pre"]))
+                wants.append((case, {"order": sched[0], "eager": sched[1]}, ["raise"] if mt["status"] == "raise" else ["ok", mt["meta"]]))
+            a = {k: v for k, v in mt.items() if k not in ("exc", "pre")}
+            b = {k: v for k, v in st.items() if k not in ("exc", "pre")}
+            if a != b:
+                what = next(k for k in ("status", "ret", "meta", "values") if a.get(k) != b.get(k))
+                R.oracle_fail("mt-apply-meta:differs-from-single-thread", dict(case, schedule={"order": sched[0], "eager": sched[1]}),
+                              {"what": what, "single": st.get(what, st.get("exc")), "multi": mt.get(what, mt.get("exc"))}, dict(sig, kind="differs", what=what))
+                break
+    mod = R.model(lines)
+    for (case, sched, want), m in zip(wants, mod):
+        got = meta_from_model(m)
+        if got != want:
+            R.mismatch("apply-meta:" + ("single-thread" if sched is None else "multithread"), dict(case, schedule=sched), want, got)
+    R.extra["apply_meta_model_comparisons"] = len(lines)
+
+
 # ------------------------------------------------------------------- writers: memmap_ / memmap / memmap_like / consolidate
 def files_of(prefix):
     out = []
@@ -1284,7 +1448,16 @@ def run_writer(case, sched):
     if op.startswith("consolidate") and sched is None:
         nt = case.get("single_threads", 0)
     o = {}
+    inject = set(case.get("inject") or [])
+    real_populate = TT_mod._populate_memmap
+
+    def failing_populate(*a, **k):
+        if k.get("key") in inject:
+            raise OSError("injected:" + str(k.get("key")))
+        return real_populate(*a, **k)
     try:
+        if inject:
+            TT_mod._populate_memmap = failing_populate
         if case.get("preexisting") and tmp is not None:
             build_tree(spec).memmap_(tmp)
         try:
@@ -1333,8 +1506,12 @@ def run_writer(case, sched):
         except Exception as e:  # noqa: BLE001
             o["status"] = "raise"
             o["exc"] = type(e).__name__
+            o["failed_key"] = str(e).split(":", 1)[1] if str(e).startswith("injected:") else None
+            if sched is not None:
+                o["ran"] = list(s.ran)
         return o
     finally:
+        TT_mod._populate_memmap = real_populate
         if tmp is not None:
             import shutil
             shutil.rmtree(tmp, ignore_errors=True)
@@ -1399,6 +1576,7 @@ def check_writers(R):
     rng = R.rng
     ncases = int(os.environ.get("C12_NWRITERS", 300 if R.quick else 6000))
     wlines, wobs = [], []
+    flines, fobs = [], []
     for ci in range(ncases):
         nleaves = rng.choice([1, 2, 3, 3, 4, 4, 5, 6])
         spec = gen_tree(rng, nleaves, depth=2)
@@ -1408,6 +1586,11 @@ def check_writers(R):
         if op in ("memmap_", "memmap") and rng.random() < 0.12:
             case["prefix"] = True
             case["preexisting"] = True      # existsok=False on existing files: the single-threaded form raises
+        if op in ("memmap_", "memmap", "memmap_like") and not case["preexisting"] and rng.random() < 0.2:
+            # fault injection: the writer task of one or two leaves raises (in every form: _populate_memmap is what the tasks run)
+            keys = [p_[-1] for p_ in all_paths(spec) if not isinstance(dict_at(spec, p_), list)]
+            case["inject"] = rng.sample(keys, min(len(keys), rng.choice([1, 1, 2])))
+            R.count("writer:injected-task-failure")
         st = run_writer(case, None)
         ntasks = nleaves + (len([p for p in all_paths(spec) if True]) - nleaves + 1 if case["prefix"] and not op.startswith("consolidate") else 0)
         scheds = T.schedules(ntasks, rng, exhaustive_upto=4 if R.quick else 5, nrandom=4)
@@ -1421,7 +1604,18 @@ def check_writers(R):
             outcomes[json.dumps(strip_w(mt), sort_keys=True)] = (order, eager)
             if mt["status"] == "ok" and st["status"] == "ok" and mt["key_order"] != st["key_order"]:
                 R.count("writer:key-order-differs-from-single-thread (not judged)")
-            if mt["status"] == "ok" and op != "to-consolidated" and not case.get("preexisting") and len(wlines) < (4000 if R.quick else 40000) and (not op.startswith("consolidate") or isinstance(mt.get("storage"), list)):
+            if case.get("inject") and len(flines) < 4000:
+                subs = [p_ for kind_, p_ in memmap_submissions(spec, bool(case["prefix"])) if kind_ == "leaf"]
+                lid = {tuple(p_): dict_at(spec, p_) for p_ in all_paths(spec) if not isinstance(dict_at(spec, p_), list)}
+                tasks = [[list(p_), [Sym("fail"), i] if p_[-1] in case["inject"] else [Sym("ok"), lid[tuple(p_)]]] for i, p_ in enumerate(subs)]
+                allsubs = memmap_submissions(spec, bool(case["prefix"]))
+                leafpos = {j: [q for q in allsubs[:j + 1] if q[0] == "leaf"].__len__() - 1 for j, q in enumerate(allsubs) if q[0] == "leaf"}
+                ran = [leafpos[j] for j in mt.get("ran", []) if j in leafpos]
+                comp = [tasks[i] for i in ran] + [t_ for i, t_ in enumerate(tasks) if i not in ran]
+                flines.append(sx([Sym("run-writes-f"), tasks, comp]))
+                want_key = lambda o_: None if o_["status"] != "raise" else o_.get("failed_key")  # noqa: E731
+                fobs.append((dict(case, schedule={"order": order, "eager": eager}), [p_[-1] for p_ in subs], want_key(st), want_key(mt), st["status"], mt["status"]))
+            if mt["status"] == "ok" and op != "to-consolidated" and not case.get("preexisting") and not case.get("inject") and len(wlines) < (4000 if R.quick else 40000) and (not op.startswith("consolidate") or isinstance(mt.get("storage"), list)):
                 line, want = writer_model_line(case, (order, eager), mt)
                 wlines.append(line)
                 wobs.append((dict(case, schedule={"order": order, "eager": eager}), want))
@@ -1448,6 +1642,14 @@ def check_writers(R):
         elif m != want:
             R.mismatch("consolidate:storage", case, want, m)
     R.extra["writer_model_comparisons"] = len(wlines)
+    # a failing writer task: which failure surfaces, in both forms (Model/C12_Sched.v: run_writes_st / run_writes_mt)
+    for (case, keys, kst, kmt, sst, smt), m in zip(fobs, R.model(flines)):
+        dec = lambda w: ["raise", keys[w[1]]] if w[0] == "raised" else ["ok"]  # noqa: E731
+        impl = [["raise", kst] if sst == "raise" else ["ok"], ["raise", kmt] if smt == "raise" else ["ok"]]
+        mo = [dec(m[0]), dec(m[1])]
+        if impl != mo:
+            R.mismatch("writer:task-failure", case, impl, mo)
+    R.extra["writer_failure_model_comparisons"] = len(flines)
 
 
 
@@ -1560,14 +1762,27 @@ def main(R):
               "tensordict AND the state left behind: identity classes (object / storage) of the leaves of self and out before vs after, the values "
               "seen through handles and a view taken before the call, dtype, shared-ness; "
               "memmap_/memmap/memmap_like/consolidate writers, each under every task permutation (apply: <= 5 tasks; writers: <= 4 tasks in quick, <= 5 in thorough) plus eager "
-              "and random schedules; distinct by full case; non-trivial = more than one chunk / leaf") % (16 if R.quick else 40)
+              "and random schedules; (4) map / map_iter END TO END against Model/C12_Map.v: batch rank 1..3, the mapped dim of size 0..7 at any position, "
+              "dim positive / negative / out of range, chunksize (0 included) / num_chunks / both / default, 1..4 workers, generator, pbar (a stand-in tqdm "
+              "records the total), out= none / regular / shared / memmap of the same or another length, functions returning the chunk, None, one row "
+              "(another batch size along dim; broadcast by update_) or the chunk twice, map_iter with shuffle under a chosen completion order; "
+              "(5) the METADATA of apply's result (batch size, names, device, lock of every nested tensordict) under batch_size= / device= / names= "
+              "overrides (torch.Size / list, torch.device / str), out= with its own metadata (locked, another device / batch size, entries missing), "
+              "inplace, checked on / off: single-threaded vs thread pool under 4 schedules, both against Model/C12_Meta.v; (6) writer tasks that FAIL "
+              "(fault injection into _populate_memmap for one or two leaves): which failure surfaces, in both forms, against the model; "
+              "distinct by full case; non-trivial = more than one chunk / leaf") % (16 if R.quick else 40)
     R.assumptions = ["multiprocessing.Pool.imap yields results in submission order (trusted; exercised for real with delays that invert completion order)",
                      "the mapped / applied functions are pure functions of their argument (plus in-place writes to their own chunk)",
                      "thread schedules are explored as (eager set, permutation of the pending tasks) run to completion in the harness thread: "
                      "real preemption inside a task is not explored",
-                     "n = 0 (empty mapped dim) is compared with the model only; the oracle speaks for n >= 1"]
+                     "n = 0 (empty mapped dim), a dim out of range, both chunksize and num_chunks, out= of another length are compared with the model only "
+                     "(theorems C12_map_full_empty_dim / _dim); the oracle speaks for n >= 1 and well-formed calls",
+                     "apply metadata model: all nodes of a result have the same number of batch dims, dim names are all-or-nothing per node, fn never "
+                     "returns None (which entries survive is Model/C12_Sched.v's business); leaf devices are not modelled"]
     R.trusted = ["multiprocessing.Pool.imap ordering; concurrent.futures semantics (a future's result is what its task returned)",
-                 "torch.split / torch.chunk sizes on arange(n) as the referent for the documented partition (evaluated in this run)"]
+                 "torch.split / torch.chunk sizes on arange(n) as the referent for the documented partition (evaluated in this run)",
+                 "slicing / cat / stack / unbind along a dim act on the list of that dim's slices as take / concat / identity (Model/C12_Map.v's view of "
+                 "a tensordict along the mapped dim); tqdm yields the items of the iterable it wraps"]
     R.step_prove()
     if not R.step_driver():
         return
@@ -1592,6 +1807,9 @@ def main(R):
         t = time.time()
         check_apply(R)
         tm["apply_s"] = round(time.time() - t, 1)
+        t = time.time()
+        check_apply_meta(R)
+        tm["apply_meta_s"] = round(time.time() - t, 1)
         t = time.time()
         check_writers(R)
         tm["writers_s"] = round(time.time() - t, 1)
@@ -1678,6 +1896,14 @@ def replay(body):
         if not case["lazy"] and not case["names"]:
             print("model:", run_model(PID, [apply_model_lines(case, None), apply_model_lines(case, mt.get("ran", []))]))
         print("signature:", apply_signature(case))
+    elif op == "applymeta":
+        sched = case.get("schedule") or {"order": [], "eager": []}
+        st = run_meta(case, None)
+        mt = run_meta(case, (sched["order"], sched["eager"]))
+        print("operands' metadata [batch size, names, device, locked, nested]:", json.dumps(st["pre"]))
+        print("single-threaded:", json.dumps({k: v for k, v in st.items() if k != "pre"}, default=str)[:2500])
+        print("multithreaded under the schedule:", json.dumps({k: v for k, v in mt.items() if k != "pre"}, default=str)[:2500])
+        print("model (single-threaded, multithreaded):", run_model(PID, [meta_model_line(case, "st", st["pre"]), meta_model_line(case, "mt", mt["pre"])]))
     elif op == "writer":
         sched = case.get("schedule") or {"order": [], "eager": []}
         st = run_writer(case, None)
